@@ -893,6 +893,53 @@ def m4_adaptive(ctx, env, probs, hams, tols):
                 ctx.skip("M4 shrink clause: fewer than three tolerances above the reference floor")
 
 
+# ======================================================================================= M4c mixed tolerances
+K_MIXED = 400.0            # |err_i| <= K (atol + rtol max|y_i|): measured <= 25 on the unchanged tree (orders 5 and 8)
+
+
+def m4_mixed_tolerances(ctx, env, n_cases):
+    """rtol and atol far apart, state far from unit magnitude: the step-acceptance scale atol + rtol |y_i| must be the one the
+    user asked for.  (With rtol == atol and |y| ~ 1 — every other M4 case — the two tolerances are interchangeable.)
+    Problem: two uncoupled rotations (closed form), all components of one common magnitude so that no component's control
+    forces small steps on another's behalf."""
+    from hiten.algorithms.integrators.rk import AdaptiveRK
+    rng = ctx.rng
+    for it in range(n_cases):
+        if not ctx.mine(it):
+            continue
+        regime = ["tiny_state_relative_control", "large_state_absolute_control"][it % 2]
+        if regime == "tiny_state_relative_control":
+            amp = 10.0 ** float(rng.uniform(-5, -3))
+            rtol, atol = 10.0 ** float(rng.uniform(-7, -5)), 1e-14 * amp
+        else:
+            amp = 10.0 ** float(rng.uniform(2, 4))
+            atol, rtol = 10.0 ** float(rng.uniform(-7, -5)), 1e-13
+        om = rng.uniform(0.6, 1.6, 2)
+        S = np.zeros((4, 4))
+        for k in range(2):
+            S[2 * k, 2 * k + 1], S[2 * k + 1, 2 * k] = om[k], -om[k]
+        x0 = rng.normal(size=4)
+        x0 *= amp / np.abs(x0).max()
+        rate = float(om.max())
+        P = ef.Problem(ef.LINROT, x0, np.concatenate([S.ravel(), [0.0, 0.0, 1.0, 0.0]]), 0.0, 3 * 2 * np.pi / rate, rate,
+                       {"Q": np.eye(4), "omega": om}, "linrot4_uncoupled_scaled")
+        tg = np.linspace(0.0, P.T, int(rng.choice([2, 61, 401])))
+        ref_ = P.exact(tg)
+        amp_i = np.abs(ref_).max(axis=0)
+        for order in (5, 8):
+            sol = AdaptiveRK(order=order, rtol=rtol, atol=atol).integrate(env.system(P.dim), P.y0.copy(), tg.copy())
+            st = np.asarray(sol.states)[:, :4]
+            err_i = np.abs(st - ref_).max(axis=0)
+            req = atol + rtol * amp_i
+            ratio = float(np.max(err_i / req))
+            ctx.case(f"M4c:adaptive{order}:{regime}", [it, ctx.seed, order, regime, tg.size], nontrivial=True)
+            ctx.stat(f"M4c max_i err_i/(atol + rtol max|y_i|) [adaptive{order}, {regime}]", ratio)
+            ctx.check(ratio <= K_MIXED + 50 * 2e-16 * amp / float(req.min()),
+                      "M4c:per-component error <= K (atol + rtol max|y_i|) with rtol != atol and |y| far from 1",
+                      lambda: {"regime": regime, "order": order, "rtol": rtol, "atol": atol, "amplitude": amp, "omega": om, "x0": x0, "T": P.T,
+                               "n_times": tg.size, "err_per_component": err_i, "requested_scale": req, "ratio": ratio})
+
+
 # ======================================================================================= M4b time-unit invariance
 def classify_timescale(order, c, ratio_scaled, ratio_base, rk45_scaled, rk45_base):
     """The DOP853 drivers multiply an error estimate that already carries one factor h by |h| once more, so a step is
@@ -1080,6 +1127,7 @@ def run(ctx):
         guarded(ctx, "M4", m4_adaptive, ctx, env, probs, hams + duff, tols)
     guarded(ctx, "M4b", m4_timescale, ctx, env, ctx.pick(3, 6 * ctx.nshards), ctx.pick([1e-2, 1e2, 1e4], [1e-4, 1e-2, 1e1, 1e2, 1e3, 1e4, 1e6]),
             ctx.pick([1e-7, 1e-10], [1e-6, 1e-8, 1e-10, 1e-12]))
+    guarded(ctx, "M4c", m4_mixed_tolerances, ctx, env, ctx.pick(8, 40 * ctx.nshards))
     guarded(ctx, "M5", m5_cr3bp, ctx, ctx.pick(4, 8 * ctx.nshards))
     ctx.note("kernel_calls", dict(env.calls))
 
